@@ -27,7 +27,8 @@ VARIABLES heap, tops, sealed, env, next, hist
 
 vars == <<heap, tops, sealed, env, next, hist>>
 Id(k) == "n" \o ToString(k)
-Fresh == [k \in 1..(4 * MaxObjs + 8) |-> Id(next + k - 1)]
+\* (long enough for every unrolling the guard of Apply admits to be COMPUTED before the guard rejects it: nested counts multiply)
+Fresh == [k \in 1..(48 * MaxObjs + 64) |-> Id(next + k - 1)]
 
 \* leaf template (link and home are filled by the action)
 T(kind, qs, chans, dur, tag) == Leaf(kind, qs, chans, dur, tag, NoLink, None)
